@@ -605,5 +605,88 @@ impl super::Transport for ArcCC {
     }
 }
 
+/// Verification hook (read-only, add-only): a canonical text dump of the integer state of the
+/// controller.  Times are nanoseconds since `origin` (`-` = `None`; instants before `origin` print as 0).
+#[cfg(genmeta_gm_quic_verif)]
+impl ArcCC {
+    pub fn verif_snapshot(&self, origin: Instant) -> String {
+        use std::fmt::Write;
+        let guard = match self.0.lock() {
+            Ok(g) => g,
+            Err(_) => return "POISONED".to_string(),
+        };
+        let t = |i: Instant| i.saturating_duration_since(origin).as_nanos().to_string();
+        let ot = |i: Option<Instant>| i.map(t).unwrap_or_else(|| "-".to_string());
+        let (cwnd, ssthresh, bif, rs, ce, mds) = guard.algorithm.verif_state();
+        let (latest, srtt, rttvar, min_rtt, first) = guard.rtt.verif_state();
+        let mut s = String::new();
+        let _ = write!(
+            s,
+            "cwnd={} ssth={} bif={} rs={} ce={},{},{} mds={} pto={} timer={} need={},{},{} mad={}",
+            cwnd,
+            ssthresh,
+            bif,
+            ot(rs),
+            ce[0],
+            ce[1],
+            ce[2],
+            mds,
+            guard.pto_count,
+            ot(guard.loss_detection_timer),
+            guard.need_send_ack_eliciting_packets[Epoch::Initial],
+            guard.need_send_ack_eliciting_packets[Epoch::Handshake],
+            guard.need_send_ack_eliciting_packets[Epoch::Data],
+            guard.max_ack_delay.as_nanos(),
+        );
+        let _ = write!(
+            s,
+            " ld={} srtt={} rttvar={} latest={} minrtt={} first={}",
+            guard.rtt.loss_delay().as_nanos(),
+            srtt.as_nanos(),
+            rttvar.as_nanos(),
+            latest.as_nanos(),
+            min_rtt.as_nanos(),
+            first as u8,
+        );
+        for (i, &epoch) in Epoch::iter().enumerate() {
+            let sp = &guard.packet_spaces[epoch];
+            let _ = write!(
+                s,
+                " sp{}={};{};{};",
+                i,
+                sp.largest_acked_packet
+                    .map(|n| n.to_string())
+                    .unwrap_or_else(|| "-".to_string()),
+                ot(sp.time_of_last_ack_eliciting_packet),
+                ot(sp.loss_time),
+            );
+            if sp.sent_packets.is_empty() {
+                s.push('-');
+            }
+            for (k, p) in sp.sent_packets.iter().enumerate() {
+                if k > 0 {
+                    s.push(',');
+                }
+                let st = match p.state {
+                    crate::packets::State::Inflight => 'I',
+                    crate::packets::State::Acked => 'A',
+                    crate::packets::State::Retransmitted => 'R',
+                };
+                let _ = write!(
+                    s,
+                    "{}/{}/{}/{}/{}/{}",
+                    p.packet_number,
+                    t(p.time_sent),
+                    p.ack_eliciting as u8,
+                    p.count_for_cc as u8,
+                    p.sent_bytes,
+                    st
+                );
+            }
+        }
+        s
+    }
+}
+
 #[cfg(test)]
 mod tests {}
